@@ -23,6 +23,11 @@ def shards(mode, bin_, n, **kw):
 
 
 PROPS = {
+    "C12": {
+        "runs": [native("c12")],
+        "expect_monitors": ["strict_parsing", "hex_format_parse_roundtrip", "packed_channel_orders", "named_colors"],
+        "assumptions": ASSUME_COMMON + ["/verif/refdata/svg_colors.txt is a faithful copy of the W3C SVG colour keyword table", "the strict grammar is: optional '#', then exactly n ASCII hex digits, n in the set the target type documents"],
+    },
     "C13": {
         "runs": [{"mode": "native-dev", "bin": "c13"}]
         + shards("miri", "c13", 16)
